@@ -60,6 +60,10 @@ def rand_tree(rng, n_ops, level=0):
         if rng.random() < .15:
             # a regular expression as the right operand (its text may hold parentheses, balanced or not)
             return ("cmp", rng.choice(["~", "~*", "~", "=", "LIKE"]), rand_tree(rng, n_ops - 1, 2), ("atom", rng.choice(REGEXES)))
+        if n_ops >= 2 and rng.random() < .25:
+            # a chain of comparisons, [a] = 1 = [b]: the grammar groups it to the left
+            l = ("cmp", rng.choice(CMP_OPS), rand_tree(rng, max(0, left - 1), 2), rand_tree(rng, 0, 2))
+            return ("cmp", rng.choice(CMP_OPS), l, rand_tree(rng, max(0, n_ops - 2 - max(0, left - 1)), 2))
         return ("cmp", rng.choice(CMP_OPS), rand_tree(rng, left, 2), rand_tree(rng, n_ops - 1 - left, 2))
     return (k, rand_tree(rng, left, 2), rand_tree(rng, n_ops - 1 - left, 2))
 
